@@ -14,10 +14,13 @@ import (
 func genSeries(maxLen int) *rapid.Generator[[]float64] {
 	return rapid.Custom(func(t *rapid.T) []float64 {
 		n := rapid.OneOf(rapid.IntRange(0, 12), rapid.IntRange(0, maxLen)).Draw(t, "len")
-		kind := rapid.IntRange(0, 4).Draw(t, "value kind")
+		kind := rapid.IntRange(0, 5).Draw(t, "value kind")
+		offset := rapid.SampledFrom([]float64{1e6, 1e9, 1e12, 1e15, -1e9, 16777216}).Draw(t, "offset")
 		x := make([]float64, n)
 		for i := range x {
 			switch kind {
+			case 5: // a large common offset and a small spread (all values exactly representable)
+				x[i] = offset + float64(rapid.IntRange(-8, 8).Draw(t, "v"))
 			case 0: // small integers, many duplicates
 				x[i] = float64(rapid.IntRange(-5, 5).Draw(t, "v"))
 			case 1:
@@ -159,6 +162,11 @@ func genExpSpec() *rapid.Generator[ExpSpec] {
 					g.WinnerEvals = rapid.IntRange(0, 5000).Draw(t, "evals")
 					g.WinnerNodes = len(g.Champion.Genome.Nodes)
 					g.WinnerGenes = len(g.Champion.Genome.Genes)
+					if rapid.IntRange(0, 5).Draw(t, "evaluator's own winner numbers") == 0 {
+						// the evaluator fills these fields itself: any non-negative numbers, zero included
+						g.WinnerNodes = rapid.IntRange(0, 3).Draw(t, "winner nodes")
+						g.WinnerGenes = rapid.IntRange(0, 3).Draw(t, "winner genes")
+					}
 				}
 				g.Diversity = rapid.IntRange(0, 6).Draw(t, "diversity")
 				for s := 0; s < g.Diversity; s++ {
